@@ -66,11 +66,26 @@ func (e *Eng) encodeFunction(fn *ssa.Function, con *Contract) (res *FnResult) {
 		f.top.vals[p] = v
 		f.params[p.Name()] = v
 	}
+	var fvRefs []string
 	for _, fv := range fn.FreeVars {
+		// a free variable is the address of the captured variable's cell (a
+		// separate allocation of the enclosing function); in contracts its
+		// name denotes the variable's value at entry
 		v := f.freshVal("fv_"+fv.Name(), fv.Type())
 		c.assume("true", f.wf(st, v))
 		f.top.freeVars = append(f.top.freeVars, v)
-		f.params[fv.Name()] = v
+		if et := derefType(fv.Type()); et != nil {
+			c.assume("true", and(not(eq(v.L[0], "0")), eq(v.L[1], bv64(0)), eq(v.L[2], bv64(0)), "(< (objtype "+v.L[0]+") 1000)"))
+			for _, o := range fvRefs {
+				c.assume("true", not(eq(v.L[0], o)))
+			}
+			fvRefs = append(fvRefs, v.L[0])
+			val := f.load(st, et, ptrAddr(v))
+			c.assume("true", f.wf(st, val))
+			f.params[fv.Name()] = val
+		} else {
+			f.params[fv.Name()] = v
+		}
 	}
 	// preconditions
 	preEnv := func() *SpecEnv {
